@@ -221,6 +221,20 @@ FactorAllreducedOncePerUpdate(c, P) ==
            \/ ReducedBetween(c, P, r, lo, hi)
                  = EventsBetween(c, lo, hi) * AllFactorElems(c)
 
+\* C03 at the level of the K-FAC protocol: all members of a group issue the
+\* same sequence of operations on it (kind, root, element count, dtype class)
+OnGroup(P, r, grp) ==
+    SelectSeq(P[r + 1], LAMBDA o : o.grp = grp)
+Strip(s) == [j \in DOMAIN s |-> [kind |-> s[j].kind, root |-> s[j].root,
+                                  numel |-> s[j].numel, dt |-> s[j].dt]]
+GroupsUsed(c, P) == UNION {{P[r + 1][j].grp : j \in DOMAIN P[r + 1]} : r \in World(c)}
+MatchAcrossRanks(c, P) ==
+    \A grp \in GroupsUsed(c, P) : \A r1, r2 \in grp :
+        Strip(OnGroup(P, r1, grp)) = Strip(OnGroup(P, r2, grp))
+MembersOnly(c, P) ==
+    \A r \in World(c) : \A j \in DOMAIN P[r + 1] :
+        r \in P[r + 1][j].grp /\ (P[r + 1][j].root = -1 \/ P[r + 1][j].root \in P[r + 1][j].grp)
+
 Clauses(c, P) ==
     /\ InvBcastInWorkerGroups(c, P)
     /\ GradBcastInReceiverGroups(c, P)
@@ -229,6 +243,8 @@ Clauses(c, P) ==
     /\ FactorsOnWorldOnly(c, P)
     /\ NothingWhenWorldIsOne(c, P)
     /\ FactorAllreducedOncePerUpdate(c, P)
+    /\ MatchAcrossRanks(c, P)
+    /\ MembersOnly(c, P)
 
 Derived(c) == [r \in 1..c.W |-> Prog(c, r - 1)]
 
@@ -243,6 +259,8 @@ T_NoGradCommOpt == NoGradBcastUnderCommOpt(C, C.trace)
 T_FactorsWorld == FactorsOnWorldOnly(C, C.trace)
 T_NothingW1 == NothingWhenWorldIsOne(C, C.trace)
 T_OncePerUpdate == FactorAllreducedOncePerUpdate(C, C.trace)
+T_Match == MatchAcrossRanks(C, C.trace)
+T_Members == MembersOnly(C, C.trace)
 \* conformance: the recorded sequences are exactly the derived ones
 Conforms == C.trace = Derived(C)
 EmitDerived == PrintT(ToJson([ci |-> ci, derived |-> Derived(C)]))
